@@ -115,6 +115,16 @@ CLAIMS["C07"] = (
     "router state' (meta-argument, not mechanised; rand in global-table reads excepted). The schedule quantifier itself is not explored.",
     "DESIGN.md section 4, C07")
 
+CLAIMS["C39"] = (
+    "Row reader of one backend result (readResultRows): a nil error with no 'more rows' flag implies the EOF packet was seen (ghost flag: "
+    "the result is complete); the result is abandoned with the row-limit error only when strictly more than maxRows rows arrived "
+    "(call-site obligation at drainResults), so a result of at most maxRows rows is delivered in full; with maxRows == 0 the limit branch is "
+    "unreachable; on success the number of rows never exceeds the limit (loop invariant, unbounded number of packets).",
+    "Assumed callee contracts: readPacket / handleErrorPacket / drainResults / RowData.Parse do not touch the result being built; panics on "
+    "empty packets are not modelled; the multi-shard merge (ExecuteSQLs, goroutines) that must honour the 'more rows' flag and the "
+    "streaming path in client_conn.go are outside the subset and not under contract.",
+    "DESIGN.md section 4, C39")
+
 NA = {
 }
 
